@@ -1,6 +1,7 @@
 package main
 
 import (
+	"strings"
 	"crypto"
 	"crypto/ecdsa"
 	"crypto/ed25519"
@@ -329,21 +330,158 @@ func rawVMType(f string) string {
 	return "EcdsaSecp256r1VerificationKey2019"
 }
 
-// docFor publishes every key twice: "<name>-r" with raw Value bytes, "<name>-j" as JsonWebKey2020.
-func docFor(d string, keys []*key) *did.Doc {
-	doc := &did.Doc{ID: d}
+// method is one entry of doc.VerificationMethods(): a verification method under the relationship the document
+// lists it for.
+type method struct {
+	id  string
+	rel string // constructor of coq/C08/Model.v `rel`
+	k   *key
+	jwk bool
+}
 
-	for _, k := range keys {
-		doc.VerificationMethod = append(doc.VerificationMethod,
-			*did.NewVerificationMethodFromBytes(d+"#"+k.name+"-r", rawVMType(k.fam), d, k.raw))
+// docDesc is the harness's own description of a DID document, groups in the order the model enumerates them.
+type docDesc struct {
+	did string
+	ms  []method
+}
 
-		vm, err := did.NewVerificationMethodFromJWK(d+"#"+k.name+"-j", "JsonWebKey2020", d, k.jwk)
+var relOrder = []string{"RAuth", "RAssert", "RCapDel", "RCapInv", "RKeyAgr", "RGeneral"}
+
+func (m method) vm(d string) did.VerificationMethod {
+	if m.jwk {
+		vm, err := did.NewVerificationMethodFromJWK(m.id, "JsonWebKey2020", d, m.k.jwk)
 		must(err)
 
-		doc.VerificationMethod = append(doc.VerificationMethod, *vm)
+		return *vm
+	}
+
+	return *did.NewVerificationMethodFromBytes(m.id, rawVMType(m.k.fam), d, m.k.raw)
+}
+
+// build makes the real did.Doc: methods of the general group go to verificationMethod, the others are embedded
+// under their relationship.
+func (dd *docDesc) build() *did.Doc {
+	doc := &did.Doc{ID: dd.did}
+
+	for _, m := range dd.ms {
+		vm := m.vm(dd.did)
+
+		switch m.rel {
+		case "RGeneral":
+			doc.VerificationMethod = append(doc.VerificationMethod, vm)
+		case "RAuth":
+			doc.Authentication = append(doc.Authentication, did.Verification{VerificationMethod: vm, Relationship: did.Authentication, Embedded: true})
+		case "RAssert":
+			doc.AssertionMethod = append(doc.AssertionMethod, did.Verification{VerificationMethod: vm, Relationship: did.AssertionMethod, Embedded: true})
+		case "RCapDel":
+			doc.CapabilityDelegation = append(doc.CapabilityDelegation, did.Verification{VerificationMethod: vm, Relationship: did.CapabilityDelegation, Embedded: true})
+		case "RCapInv":
+			doc.CapabilityInvocation = append(doc.CapabilityInvocation, did.Verification{VerificationMethod: vm, Relationship: did.CapabilityInvocation, Embedded: true})
+		case "RKeyAgr":
+			doc.KeyAgreement = append(doc.KeyAgreement, did.Verification{VerificationMethod: vm, Relationship: did.KeyAgreement, Embedded: true})
+		}
 	}
 
 	return doc
+}
+
+// sorted returns the entries group by group in relOrder (the order the model's list has).
+func (dd *docDesc) sorted() []method {
+	var out []method
+
+	for _, r := range relOrder {
+		for _, m := range dd.ms {
+			if m.rel == r {
+				out = append(out, m)
+			}
+		}
+	}
+
+	return out
+}
+
+// candidates is the ORACLE's reading of "the keys a kid may resolve to for signature verification": methods of the
+// DID's document whose id contains the fragment and that are listed under some relationship other than keyAgreement.
+func (w *world) candidates(d, frag string) []method {
+	dd := w.docs[d]
+	if dd == nil {
+		return nil
+	}
+
+	var out []method
+
+	for _, m := range dd.sorted() {
+		if m.rel != "RKeyAgr" && strings.Contains(m.id, frag) {
+			out = append(out, m)
+		}
+	}
+
+	return out
+}
+
+// deterministic: Go enumerates the relationship groups of a document in map order; the resolver's answer is
+// determined only when the first candidate of every group is the same key in the same representation.
+func (w *world) deterministic(d, frag string) bool {
+	first := map[string]method{}
+
+	for _, m := range w.candidates(d, frag) {
+		if _, ok := first[m.rel]; !ok {
+			first[m.rel] = m
+		}
+	}
+
+	var ref *method
+
+	for _, m := range first {
+		m := m
+		if ref == nil {
+			ref = &m
+		} else if ref.k != m.k || ref.jwk != m.jwk {
+			return false
+		}
+	}
+
+	return true
+}
+
+// layout describes the three documents of a run.
+func (w *world) layout() {
+	w.docs = map[string]*docDesc{}
+
+	two := func(d string, keys []*key) *docDesc {
+		dd := &docDesc{did: d}
+		for _, k := range keys {
+			dd.ms = append(dd.ms, method{d + "#" + k.name + "-r", "RGeneral", k, false}, method{d + "#" + k.name + "-j", "RGeneral", k, true})
+		}
+
+		return dd
+	}
+
+	// did:ex:a and did:ex:m publish every key twice ("<name>-r" raw Value bytes, "<name>-j" JsonWebKey2020) and
+	// share the fragment "key-1" (different keys)
+	a := two(didA, w.party)
+	a.ms = append(a.ms, method{didA + "#key-1", "RGeneral", w.party[0], true})
+	m := two(didM, w.attacker)
+	m.ms = append(m.ms, method{didM + "#key-1", "RGeneral", w.attacker[0], true})
+
+	x := func(n string) *key { return w.byRef[didB+"#"+n] }
+	// did:ex:b: methods embedded under single relationships, one method under several, key-agreement-only methods
+	// with signature-capable keys (absolute and relative id), fragments that contain each other
+	b := &docDesc{did: didB, ms: []method{
+		{didB + "#multi", "RAuth", x("multi"), true},
+		{didB + "#multi", "RAssert", x("multi"), true},
+		{didB + "#cap", "RCapInv", x("cap"), true},
+		{didB + "#ka-1", "RKeyAgr", x("ka1"), true},
+		{"#ka-2", "RKeyAgr", x("ka2"), false},
+		{didB + "#multi", "RKeyAgr", x("multi"), true},
+		{didB + "#key-10", "RGeneral", x("k10"), true},
+		{didB + "#key-1", "RGeneral", x("k1"), true},
+	}}
+
+	for _, dd := range []*docDesc{a, m, b} {
+		w.docs[dd.did] = dd
+		w.vdr.docs[dd.did] = dd.build()
+	}
 }
 
 // pubKey builds the verifier.PublicKey a resolver hands out for the key in the given representation.
@@ -362,7 +500,7 @@ func newVDR() *vdrStub { return &vdrStub{docs: map[string]*did.Doc{}} }
 
 // KeyPub is the public part of a key of a run (for self-contained replays).
 type KeyPub struct {
-	Party bool   `json:"party"`
+	Group string `json:"group"` // party | attacker | extra
 	Name  string `json:"name"`
 	ID    int    `json:"id"`
 	Fam   string `json:"fam"`
@@ -375,11 +513,15 @@ func (w *world) export() []KeyPub {
 	var out []KeyPub
 
 	for _, k := range w.party {
-		out = append(out, KeyPub{Party: true, Name: k.name, ID: k.id, Fam: k.fam, Alg: k.alg, HProc: k.hproc, Raw: k.raw})
+		out = append(out, KeyPub{Group: "party", Name: k.name, ID: k.id, Fam: k.fam, Alg: k.alg, HProc: k.hproc, Raw: k.raw})
 	}
 
 	for _, k := range w.attacker {
-		out = append(out, KeyPub{Name: k.name, ID: k.id, Fam: k.fam, Raw: k.raw})
+		out = append(out, KeyPub{Group: "attacker", Name: k.name, ID: k.id, Fam: k.fam, Raw: k.raw})
+	}
+
+	for _, k := range w.extra {
+		out = append(out, KeyPub{Group: "extra", Name: k.name, ID: k.id, Fam: k.fam, Raw: k.raw})
 	}
 
 	return out
@@ -407,12 +549,16 @@ func importWorld(ks []KeyPub) *world {
 
 		k.fill()
 
-		if p.Party {
+		switch p.Group {
+		case "party":
 			w.party = append(w.party, k)
 			w.byRef[didA+"#"+k.name] = k
-		} else {
+		case "attacker":
 			w.attacker = append(w.attacker, k)
 			w.byRef[didM+"#"+k.name] = k
+		default:
+			w.extra = append(w.extra, k)
+			w.byRef[didB+"#"+k.name] = k
 		}
 	}
 
